@@ -301,6 +301,15 @@ def _mk_templates():
                                                                block(("if", ("bin", "<", var("x"), s[1]), block(("return", lit("False", "Bool"))), None),
                                                                      lit("True", "Bool")))),
                                            ("if", ("call", "g", [lit("1", "Int")]), block(("mcall", s[0], "len", [])), block(lit("0", "Int")))])
+    # lets inside nested blocks (if / else / match arm / for body / while body): binders whose scope ends before the function does
+    t("let-in-if", I, [B, I, I], lambda s: [("if", s[0], block(("let", "d", None, s[1]), ("bin", "+", var("d"), lit("1", "Int"))),
+                                             block(("let", "e", None, s[2]), ("bin", "*", var("e"), lit("2", "Int"))))])
+    t("let-in-match", I, [O, I], lambda s: [("match", s[0], [[("pat", "Some", "v"), block(("let", "d", None, ("bin", "+", var("v"), lit("1", "Int"))), ("bin", "*", var("d"), s[1]))],
+                                                             [("pat", "None", None), block(s[1])]])])
+    t("let-in-loops", I, [L, I], lambda s: [("let", "t", None, s[1]),
+                                            ("for", "x", s[0], block(("let", "d", None, ("bin", "*", var("x"), lit("2", "Int"))), ("assign", "t", ("bin", "+", var("t"), var("d"))))),
+                                            ("while", ("bin", "<", var("t"), lit("9", "Int")), block(("let", "w", None, ("bin", "+", var("t"), lit("3", "Int"))), ("assign", "t", var("w")))),
+                                            var("t")])
     t("call-inc", I, [I], lambda s: [("call", "inc", [s[0]])], "inc")
     t("call-unwrap", I, [O], lambda s: [("call", "unwrap", [s[0]])], "unwrap")
     t("call-code", I, [C], lambda s: [("call", "code", [s[0]])], "code")
@@ -382,6 +391,8 @@ def _mk_templates():
     return T
 
 
+# templates that exist for their binders (scope edits): used as function bodies only, not as depth-2 slot fillers
+OUTER_ONLY = {"let-in-if", "let-in-match"}
 TEMPLATES = _mk_templates()
 BY_TYPE = {ty: [t for t in TEMPLATES if t[1] == ty] for ty in TYPES}
 
@@ -457,6 +468,8 @@ def base_programs(depth2, full_fills):
     for name, ty, slots, build, helper in TEMPLATES:
         for si, sty in enumerate(slots):
             for iname, ity, islots, ibuild, ihelper in BY_TYPE[sty]:
+                if iname in OUTER_ONLY:
+                    continue
                 if helper and ihelper and helper != ihelper:
                     continue  # would need three functions
                 istmts_probe = ibuild([DEFAULT_LIT[t] for t in islots])
@@ -580,6 +593,8 @@ class Edits:
         self.alts = EXPR_ALTS_SMALL if small else EXPR_ALTS
         self.compound = compound
         self.owner = "function"     # what an explicit `return` returns from
+        self.binders = []           # (name, binder kind, index of the top-level statement of f's body that contains it | -1)
+        self._top = None
         funs = prog[1]
         for fi, f in enumerate(funs):
             self.fun(f, (1, fi), body=(f[1] == "f"))
@@ -615,17 +630,42 @@ class Edits:
             self.add(path + (2,), f"arity: param dropped from definition{who}", params[:-1])
         self.add(path + (2,), f"arity: param added to definition{who}", params + [["extra", "Int"]])
         self.add(path + (1,), f"function{who} renamed (callers unbound)", name + "2")
+        if not body:
+            for pn, ph in params:
+                self.binders.append((pn, "parameter of the other function", -1))
         if body:
             scope = {pn: ph for pn, ph in params}
             self.block(blk, path + (4,), scope, "fun body")
+            self.out_of_scope(f, path)
+
+    def out_of_scope(self, f, path):
+        """One mutant per binder whose scope ends before f's body does: `let oos = <name>` as a later top-level statement of f
+        (after the statement that contains the binder; when that is the result expression it is first bound to `r0`)."""
+        stmts = f[4][1]
+        top_names = {pn for pn, _ in f[2]} | {s[1] for s in stmts if s[0] == "let"}
+        seen = set()
+        for name, kind, top in self.binders:
+            if name in top_names or (name, kind, top) in seen or top is None:
+                continue
+            seen.add((name, kind, top))
+            use = ("let", "oos", None, var(name))
+            if top < len(stmts) - 1:
+                new = stmts[:top + 1] + [use] + stmts[top + 1:]
+            else:
+                new = stmts[:top] + [("let", "r0", None, stmts[top]), use, var("r0")]
+            self.add(path + (4, 1), f"variable referenced out of scope: {kind}", new, f"variable referenced out of scope: {kind} `{name}`")
 
     def block(self, blk, path, scope, kind):
         sc = dict(scope)
         n = len(blk[1])
         for i, s in enumerate(blk[1]):
             p = path + (1, i)
+            if kind == "fun body":
+                self._top = i
             if s[0] == "let":
                 _, nm, hint, e = s
+                if kind != "fun body":
+                    self.binders.append((nm, f"let in {kind}", self._top))
                 t = typeof(e, sc, self.sigs)
                 for h in HINT_ALTS:
                     if h != hint:
@@ -644,7 +684,7 @@ class Edits:
                 self.expr(s[2], p + (2,), sc, "assigned value", "assigned value")
             elif s[0] == "while":
                 self.expr(s[1], p + (1,), sc, "while condition", "while condition")
-                self.block(s[2], p + (2,), sc, "loop body")
+                self.block(s[2], p + (2,), sc, "while body")
             elif s[0] == "return":
                 if s[1] is None:
                     for a in self.alts:
@@ -654,11 +694,12 @@ class Edits:
                     r = f"early return value in {self.owner}"
                     self.expr(s[1], p + (1,), sc, r, r + f" ({kind})")
             elif s[0] == "for":
+                self.binders.append((s[1], "for variable", self._top))
                 self.add(p + (1,), "loop variable renamed (uses become unbound)", "zz")
                 self.expr(s[2], p + (2,), sc, "for-loop iterable", "for-loop iterable")
                 sc2 = dict(sc)
                 sc2[s[1]] = "Int"
-                self.block(s[3], p + (3,), sc2, "loop body")
+                self.block(s[3], p + (3,), sc2, "for body")
             else:
                 r = f"result of {kind}" if i == n - 1 else f"statement in {kind}"
                 self.expr(s, p, sc, r, r)
@@ -752,6 +793,7 @@ class Edits:
                 sc = dict(scope)
                 if p[2]:
                     sc[p[2]] = "Int"
+                    self.binders.append((p[2], "match payload", self._top))
                 self.block(b, path + (2, i, 1), sc, "match arm")
         elif k == "lam":
             params = e[1]
@@ -767,6 +809,7 @@ class Edits:
             sc = dict(scope)
             for pn, ph in params:
                 sc[pn] = ph
+                self.binders.append((pn, "closure parameter", self._top))
             outer, self.owner = self.owner, "closure"
             self.block(e[3], path + (3,), sc, "closure body")
             self.owner = outer
